@@ -382,6 +382,7 @@ def r65(chk, m):
         it = A.Interp(model=m, scope=f, hooks=h, max_iter=8, exc_edges=False, inline=10, heap=True, precise_exc=True)
         outs = it.run_function(f, env=env)
         need(not it.imprecise, 'NamedNodeMap: %s' % it.imprecise[:2])
+        need(not it.unknown_branches, 'NamedNodeMap: test not determined: %s' % it.unknown_branches[:2])
         res = set()
         for k2, s2, v in outs:
             E2, vs, mp = s2.env['__E'], s2.env['__vals'], s2.env['self']
